@@ -120,9 +120,13 @@ class ListSource(SourceBase):
 
     released = True
 
+    def __init__(self, ctx, name, items, spec=None):
+        super().__init__(ctx, name, items, spec)
+        self._obj = list(items)
+
     @property
     def obj(self):
-        return list(self.items)
+        return self._obj
 
 
 class AClassSource(SourceBase):
